@@ -1,4 +1,53 @@
+// Kani harnesses for datafusion/common/src/utils/mod.rs (property C09, search kernels of RANGE/GROUPS frames):
+// bounded twins of the Verus unit `range_search_kernels` on the unextracted functions, Arrow row access stubbed.
 #[allow(unused_qualifications, unused_imports, dead_code, clippy::all)]
 mod verif_kani {
     use super::*;
+
+    /// stub of get_row_at_idx: row i is the one-column row [UInt64(i)]
+    fn stub_row(_columns: &[ArrayRef], idx: usize) -> Result<Vec<ScalarValue>> {
+        Ok(vec![ScalarValue::UInt64(Some(idx as u64))])
+    }
+    fn row_index(row: &[ScalarValue]) -> usize {
+        match &row[0] { ScalarValue::UInt64(Some(i)) => *i as usize, _ => 0 }
+    }
+    const N: usize = 5;
+
+    /// search_in_slice: first row of [low, high) failing the predicate (or high); arbitrary predicate over 9 rows
+    #[kani::proof]
+    #[kani::unwind(7)]
+    #[kani::stub(get_row_at_idx, stub_row)]
+    fn c09_search_in_slice_bounded() {
+        let p: [bool; N] = kani::any();
+        let low: usize = kani::any();
+        let high: usize = kani::any();
+        kani::assume(low <= high && high <= N);
+        let cmp = |cur: &[ScalarValue], _t: &[ScalarValue]| -> Result<bool> { Ok(p[row_index(cur)]) };
+        let r = search_in_slice(&[], &[], cmp, low, high);
+        let r = match r { Ok(v) => v, Err(e) => { std::mem::forget(e); assert!(false, "C09.search_in_slice.no_error"); return; } };
+        assert!(low <= r && r <= high, "C09.search_in_slice.result_within_bounds");
+        let mut i = low;
+        while i < r { assert!(p[i], "C09.search_in_slice.every_row_before_the_result_satisfies_the_predicate"); i += 1; }
+        if r < high { assert!(!p[r], "C09.search_in_slice.result_is_the_first_failing_row"); }
+        kani::cover!(r == high && high - low >= 4);
+        kani::cover!(r == high && high - low == 2);
+        kani::cover!(r > low && r < high);
+    }
+
+    /// find_bisect_point: partition point of a prefix-closed predicate on [low, high)
+    #[kani::proof]
+    #[kani::unwind(7)]
+    #[kani::stub(get_row_at_idx, stub_row)]
+    fn c09_find_bisect_point_bounded() {
+        let low: usize = kani::any();
+        let high: usize = kani::any();
+        let cut: usize = kani::any();   // predicate true exactly below `cut`
+        kani::assume(low <= high && high <= N);
+        let cmp = |cur: &[ScalarValue], _t: &[ScalarValue]| -> Result<bool> { Ok(row_index(cur) < cut) };
+        let r = find_bisect_point(&[], &[], cmp, low, high);
+        let r = match r { Ok(v) => v, Err(e) => { std::mem::forget(e); assert!(false, "C09.find_bisect_point.no_error"); return; } };
+        let expect = if cut <= low { low } else if cut >= high { high } else { cut };
+        assert!(r == expect, "C09.find_bisect_point.is_the_partition_point");
+        kani::cover!(r > low && r < high);
+    }
 }
